@@ -108,11 +108,36 @@ Definition mstate := (heap * book)%type.
    around the SAME attribute dictionaries, so an edge update on the derived template was an edge update on its base. *)
 Definition fixed_state_carry : bool := true.
 Definition fixed_shared_edge_dicts : bool := true.
+(* fixed_D98 (overridable by VERIF_C14_D98_FIXED): false = the code as it is: collect_edges (also behind get_edges) prefixes the
+   variable paths held as string-valued edge attributes IN the attribute dictionaries of the sub-circuits' templates — a
+   getter that changes the template, once more on every call; true = the repair /verif/fixes/fix_D98.diff (the prefixed
+   attributes go into a new dictionary). *)
+Definition fixed_D98 : bool := false.
 
-Definition mstep_gen (fixed fixed_e : bool) (d : nat) (r : id) (s : mstate) (o : mop) : mstate * mout :=
+(* what collect_edges (before fix D98) does to the store: `for c_scope, c in self.circuits.items(): edges_tmp = c.collect_edges();
+   for .. edge_dict in edges_tmp: edge_dict[key] = f"{c_scope}/{val}"` — the dictionaries in edges_tmp ARE the dictionaries of the
+   templates below c (once per path that reaches them) *)
+Definition prefix_own (n : string) (h : heap) (c : id) : heap :=
+  match lookup h c with
+  | Some (OCirc ch es) => hset h c (OCirc ch (map (fun e : edge => let '(s, t, a) := e in (s, t, prefix_attrs n a)) es))
+  | _ => h
+  end.
+Fixpoint prefix_all (n : string) (d : nat) (h : heap) (c : id) : heap :=
+  let h1 := prefix_own n h c in
+  match d, lookup h c with
+  | S d', Some (OCirc ch _) => fold_left (fun acc x => prefix_all n d' acc (snd x)) ch h1
+  | _, _ => h1
+  end.
+Fixpoint collect_mut (d : nat) (h : heap) (c : id) : heap :=
+  match d, lookup h c with
+  | S d', Some (OCirc ch _) => fold_left (fun acc x => prefix_all (fst x) d' (collect_mut d' acc (snd x)) (snd x)) ch h
+  | _, _ => h
+  end.
+
+Definition mstep_gen (fixed fixed_e f98 : bool) (d : nat) (r : id) (s : mstate) (o : mop) : mstate * mout :=
   let '(h, b) := s in
   match o with
-  | MRead q => (s, read d r h q)
+  | MRead q => ((match q with QEdges => if f98 then h else collect_mut d h r | _ => h end, b), read d r h q)
   | MToYaml => (s, RDone)
   | MDeepcopy => ((deepcopy_heap d r h, b), RDone)
   | MUpdateTemplate es =>
@@ -144,18 +169,23 @@ Definition mstepS (d : nat) (t : atree) (o : mop) : mout :=
   | MRun _ => RRun true
   | MObserve => RObs (tobserve d t [] [])
   end.
-Fixpoint mrun_gen (fixed fixed_e : bool) (d : nat) (r : id) (s : mstate) (ops : list mop) : mstate * list mout :=
+Fixpoint mrun_gen (fixed fixed_e f98 : bool) (d : nat) (r : id) (s : mstate) (ops : list mop) : mstate * list mout :=
   match ops with
   | [] => (s, [])
-  | o :: rest => let '(s1, out) := mstep_gen fixed fixed_e d r s o in
-                 let '(s2, outs) := mrun_gen fixed fixed_e d r s1 rest in (s2, out :: outs)
+  | o :: rest => let '(s1, out) := mstep_gen fixed fixed_e f98 d r s o in
+                 let '(s2, outs) := mrun_gen fixed fixed_e f98 d r s1 rest in (s2, out :: outs)
   end.
-Definition mstep := mstep_gen fixed_state_carry fixed_shared_edge_dicts.     (* the code as it is *)
-Definition mrun := mrun_gen fixed_state_carry fixed_shared_edge_dicts.
+Definition mstep := mstep_gen fixed_state_carry fixed_shared_edge_dicts fixed_D98.     (* the code as it is *)
+Definition mrun := mrun_gen fixed_state_carry fixed_shared_edge_dicts fixed_D98.
 
 (* guard of the former finding C14-shared-edge-dicts (needed only for fixed_e = false) *)
 Definition is_derive_edit (o : mop) : bool := match o with MDeriveEdit _ _ _ => true | _ => false end.
 Definition no_derive_edit (ops : list mop) : bool := negb (existsb is_derive_edit ops).
+(* guard of finding D98: no collect_edges / get_edges call on the template (needed only for f98 = false) *)
+Definition is_collect (o : mop) : bool := match o with MRead QEdges => true | _ => false end.
+Definition no_collect (ops : list mop) : bool := negb (existsb is_collect ops).
+Definition op_ok (fe f98 : bool) (o : mop) : bool := (fe || negb (is_derive_edit o)) && (f98 || negb (is_collect o)).
+Definition ops_ok (fe f98 : bool) (ops : list mop) : bool := forallb (op_ok fe f98) ops.
 
 (* guard of the state-carry defect as it was before fix D74: no bookkeeping written by an earlier call is read by a later one *)
 Fixpoint carry_free (seen_run : bool) (seen_c : option bool) (ops : list mop) : bool :=
@@ -187,6 +217,7 @@ Definition mout_ok (inputs : list string) (m : mout) (p : pymout) : bool :=
   | REdge (Some a), PEdgeW (Some w) => Qc_eqb (weight_of a) w
   | REdge None, PEdgeW None => true
   | RDone, PDone' => true
+  | RObs ORaised, PRaised' => true
   | RRaised, PRaised' => true
   | RCompile a, PCompile b => yout_eqb a b
   | RRun a, PRun b => Bool.eqb a b
